@@ -11,7 +11,7 @@ import (
 )
 
 // buildEcho builds an echo instance: [recover] -> pre -> { /n/ctrl ; group /s with ScopeMiddleware }.
-func buildEcho(cs *caseState, sp *spy) http.Handler {
+func buildEcho(cs *caseState, sp godi.Provider) http.Handler {
 	o := cs.spec.Opts
 	look := func(c echo.Context) *reqState { return cs.lookup(c.Request().Header.Get(hdrReq)) }
 
